@@ -25,6 +25,7 @@ import ControlModel.Proofs.RunNumber
 import ControlModel.Proofs.RunAttempts
 import ControlModel.Proofs.RunWrites
 import ControlModel.Proofs.RunRemote
+import ControlModel.Proofs.RunStartup
 
 open RunNumber
 
@@ -450,6 +451,171 @@ theorem C07_hop_must_forward_error :
     refusedIsErr (obsVia swallowingHop all 2 s) = false ∧ ownWriteB (obsVia swallowingHop all 2 s) = false ∧
     uniqueB (retsOf (obsVia swallowingHop all 2 s)) = false ∧
     SpecObs true 41 (obsVia swallowingHop all 2 s) = false := by decide
+
+/-! ## service start-ups as steps of the schedule
+
+  Model/RunStartup.lean: a schedule is any `List SStep` — the constructions of any number of apricot
+  instances (`start j`) interleaved with the read/CAS steps of the callers (each asks the instance
+  `home c`, and cannot be launched before that instance is up), with foreign writes, deletes of the
+  key (the KV tree wiped), failed requests and crashes. Everything below is for ALL such schedules,
+  every assignment of callers to instances, every well-formed initial key (absent, present, junk). -/
+
+/-- **Constructing a Service sends nothing to Consul** — what `codeStart` says is what the code
+    does: go/ast (`local.NewService` → `cfgbackend.NewSource` → `NewConsulSource` call nothing but
+    constructors: no method of the backend, no go/defer/function literal) AND the linked
+    constructor evaluated against the KV simulator, once with the counter key absent and once with
+    it present, every request it could have sent being answered at once and recorded: none was.
+    A constructor that probes, creates or repairs the counter makes this false. -/
+theorem C07_startup_is_code :
+    Gen.C07.ctorEvaluated = true ∧
+    codeStart.ensuresCounter =
+      !(Gen.C07.ctorBuildsOnly && Gen.C07.ctorSilentAbsent && Gen.C07.ctorSilentPresent) := by decide
+
+/-- A start-up of the code, in ANY state: store, callers, numbers handed out and the record of own
+    writes are exactly what they were — time passes and the instance is up. In particular the
+    counter key is NOT created by a start-up; it is created by the first allocation's `cas=0`. -/
+theorem C07_startup_touches_nothing (p : Proto) (home : Homes) (j : Nat) (s : SSys) :
+    (sstep codeStart p home (.start j) s).base.store = s.base.store ∧
+    (sstep codeStart p home (.start j) s).base.callers = s.base.callers ∧
+    (sstep codeStart p home (.start j) s).base.log = s.base.log ∧
+    (sstep codeStart p home (.start j) s).own = s.own ∧
+    (s.inst j = .down → ((sstep codeStart p home (.start j) s).inst j).isUp = true) := by
+  obtain ⟨hb, ho⟩ := sstep_start_code p home j s
+  refine ⟨by rw [hb]; rfl, by rw [hb]; rfl, by rw [hb]; rfl, ho, ?_⟩
+  intro hd
+  simp [sstep, codeStart, hd, setInst, IState.isUp]
+
+/-- An instance that is not up hands out nothing: a step that would launch a call on it does
+    nothing at all (in any state, whatever the start-up does). -/
+theorem C07_startup_down_instance_is_not_asked (cfg : StartCfg) (p : Proto) (home : Homes) (s : SSys) (c j : Nat)
+    (hh : home c = some j) (hd : (s.inst j).isUp = false) (hc : s.base.callers c = .idle) :
+    sstep cfg p home (.base (.read c)) s = { s with base := tick s.base } ∧
+    sstep cfg p home (.base (.fail c)) s = { s with base := tick s.base } :=
+  sstep_down_blocks cfg p home s c j hh hd hc
+
+/-- The invariant of the protocol holds along every schedule with start-ups. -/
+theorem C07_startup_invariant (p : Proto) (hcas : p.useCas = true) (hchk : p.checkOk = true) (hg : p.guard = true)
+    (home : Homes) (sched : List SStep) (st : Store) (hwf : st.WF)
+    (hfm : SForeignMonotone codeStart p home sched (sinit st) = true) :
+    Inv p st.level (srun codeStart p home sched (sinit st)).base :=
+  srun_inv hcas hchk hg home sched _ (inv_sinit p st hwf) hfm
+
+/-- **Uniqueness across start-ups**: whichever instances come up whenever — before, between or
+    during allocations of instances already up, on a key that is absent, present or deleted and
+    re-created in between — no two callers are handed the same number (`ForeignMonotone` alone). -/
+theorem C07_startup_unique_code (home : Homes) (sched : List SStep) (st : Store) (hwf : st.WF)
+    (hfm : SForeignMonotone codeStart codeProto home sched (sinit st) = true)
+    (a b na nb : Nat) (hab : a ≠ b)
+    (ha : sreturned (srun codeStart codeProto home sched (sinit st)) a = some na)
+    (hb : sreturned (srun codeStart codeProto home sched (sinit st)) b = some nb) : na ≠ nb :=
+  (C07_startup_invariant codeProto rfl rfl rfl home sched st hwf hfm).unique_returned a b na nb hab ha hb
+
+/-- **Monotonicity across start-ups**: a call that completed before another one started — on
+    whatever instance, started whenever — got the smaller number. -/
+theorem C07_startup_monotone_code (home : Homes) (sched : List SStep) (st : Store) (hwf : st.WF)
+    (hfm : SForeignMonotone codeStart codeProto home sched (sinit st) = true)
+    (a b na ta ea nb tb eb : Nat) (qa qb : Option Nat)
+    (ha : (srun codeStart codeProto home sched (sinit st)).base.callers a = .done na .ok ta ea qa)
+    (hb : (srun codeStart codeProto home sched (sinit st)).base.callers b = .done nb .ok tb eb qb)
+    (hab : ea < tb) : na < nb := by
+  have inv := C07_startup_invariant codeProto rfl rfl rfl home sched st hwf hfm
+  exact inv.monotone_prop _ _ (inv.logged a _ _ _ _ ha) (inv.logged b _ _ _ _ hb) hab
+
+/-- Every number handed out lies above the level the counter had when the history began (0 for an
+    absent key), and at most at the level it has now. -/
+theorem C07_startup_above_initial (home : Homes) (sched : List SStep) (st : Store) (hwf : st.WF)
+    (hfm : SForeignMonotone codeStart codeProto home sched (sinit st) = true) (c n : Nat)
+    (hc : sreturned (srun codeStart codeProto home sched (sinit st)) c = some n) :
+    st.level < n ∧ n ≤ (srun codeStart codeProto home sched (sinit st)).base.store.level :=
+  (C07_startup_invariant codeProto rfl rfl rfl home sched st hwf hfm).above_returned c n hc
+
+/-- **Our own code never moves the counter backwards**: every write of a caller or of a start-up
+    that Consul applied raised the counter by exactly one (start-ups contribute none). -/
+theorem C07_startup_own_writes_raise_by_one (home : Homes) (sched : List SStep) (st : Store) (hwf : st.WF)
+    (hfm : SForeignMonotone codeStart codeProto home sched (sinit st) = true) :
+    ∀ ba ∈ (srun codeStart codeProto home sched (sinit st)).own, ba.2 = ba.1 + 1 :=
+  srun_own rfl rfl rfl home sched _ (inv_sinit codeProto st hwf) (by intro ba h; cases h) hfm
+
+/-- The decidable `SpecStart` the driver evaluates on what the real instances did holds of the
+    model's log and own-write record, for all schedules with start-ups. -/
+theorem C07_startup_spec (home : Homes) (sched : List SStep) (st : Store) (hwf : st.WF)
+    (hfm : SForeignMonotone codeStart codeProto home sched (sinit st) = true) :
+    Spec st.level (srun codeStart codeProto home sched (sinit st)).base.log = true ∧
+    ownNeverLowersB (srun codeStart codeProto home sched (sinit st)).own = true :=
+  ⟨(C07_startup_invariant codeProto rfl rfl rfl home sched st hwf hfm).spec,
+   ownNeverLowers_of_ownOk _ (C07_startup_own_writes_raise_by_one home sched st hwf hfm)⟩
+
+/-- **Only our own instances on the key** (no foreign write, no delete): however many instances
+    come up however they interleave with the allocations, the numbers handed out are, in completion
+    order, exactly `L+1, L+2, …, L+m` where `L` is the level found at the beginning, and the counter
+    stands at `L+m`. -/
+theorem C07_startup_counts_up (home : Homes) (sched : List SStep) (st : Store) (hwf : st.WF)
+    (hnf : noForeign sched = true) :
+    let s := srun codeStart codeProto home sched (sinit st)
+    s.base.log.map (·.num) = List.range' (st.level + 1) s.base.log.length ∧
+    s.base.store.level = st.level + s.base.log.length := by
+  have := srun_cnt (p := codeProto) rfl rfl rfl home sched _ (inv_sinit codeProto st hwf) (cnt_sinit st) hnf
+  exact ⟨this.2, this.1⟩
+
+/-- **Absent key: the first number is 1, exactly once.** From a KV without the counter key and
+    with only our own instances on it, if anything is handed out at all the first number is 1, the
+    numbers are 1 … m, and no second caller is ever handed 1. -/
+theorem C07_startup_absent_key_first_number_is_one_once (home : Homes) (sched : List SStep) (raft : Nat)
+    (hnf : noForeign sched = true) :
+    let s := srun codeStart codeProto home sched (sinit ⟨none, raft⟩)
+    s.base.log.map (·.num) = List.range' 1 s.base.log.length ∧
+    (∀ a b, a ≠ b → sreturned s a = some 1 → sreturned s b ≠ some 1) := by
+  have hwf : (⟨none, raft⟩ : Store).WF := by intro e he; cases he
+  refine ⟨(C07_startup_counts_up home sched ⟨none, raft⟩ hwf hnf).1, ?_⟩
+  intro a b hab ha hb
+  exact C07_startup_unique_code home sched ⟨none, raft⟩ hwf (noForeign_fm codeProto home sched _ hnf)
+    a b 1 1 hab ha hb rfl
+
+/-- **The start-up must not write the counter.** A constructor that "makes sure the counter
+    exists" — `Exists(key)`, then an unconditional `Put(key, "0")` if it saw the key absent — with
+    the protocol itself untouched: two instances come up on a KV without the key, both see it
+    absent; instance 1 creates it and hands out 1; then instance 0's late `Put "0"` lands and the
+    next allocation hands out 1 AGAIN (no foreign writer anywhere: the hypothesis of every theorem
+    above holds). The record of own writes shows the counter moved from 1 back to 0, which
+    `ownNeverLowersB` rejects; the code's start-up on the same schedule gives 1 and 2. -/
+theorem C07_startup_must_not_write :
+    let home : Homes := fun c => some c
+    let sched : List SStep := [.start 0, .start 1, .start 1, .base (.read 1), .base (.cas 1), .start 0,
+                               .base (.read 0), .base (.cas 0)]
+    let bad := srun ensuringStart codeProto home sched (sinit ⟨none, 0⟩)
+    let good := srun codeStart codeProto home sched (sinit ⟨none, 0⟩)
+    noForeign sched = true ∧
+    sreturned bad 0 = some 1 ∧ sreturned bad 1 = some 1 ∧
+    bad.own = [(0, 0), (0, 1), (1, 0), (0, 1)] ∧ ownNeverLowersB bad.own = false ∧
+    uniqueB bad.base.log = false ∧
+    sreturned good 0 = some 2 ∧ sreturned good 1 = some 1 ∧ good.own = [(0, 1), (1, 2)] := by decide
+
+/-- …while the same constructor is harmless when nothing overlaps its two requests (sequential
+    start-ups, or the key already there): the defect needs concurrent start-ups on an absent key —
+    which is why only schedules with start-ups AS STEPS can show it. -/
+theorem C07_startup_ensuring_sequential_is_harmless :
+    let home : Homes := fun c => some c
+    let sched : List SStep := [.start 0, .start 0, .base (.read 0), .base (.cas 0), .start 1, .start 1,
+                               .base (.read 1), .base (.cas 1)]
+    let s := srun ensuringStart codeProto home sched (sinit ⟨none, 0⟩)
+    sreturned s 0 = some 1 ∧ sreturned s 1 = some 2 ∧ ownNeverLowersB s.own = true := by decide
+
+/-- Non-vacuity: a fresh deployment (no counter key). Core 0 comes up and starts a run; the
+    apricot daemon (instance 1) comes up while that allocation is under way and loses the race for
+    the `cas=0` creation; somebody restores the key from a backup taken a moment ago (same value);
+    a third instance comes up late, one of its requests fails; a call is attempted on an instance
+    that is still down (nothing happens). Numbers handed out: 1, 2, 3 — every hypothesis holds. -/
+example :
+    let home : Homes := fun c => some (c % 3)
+    let sched : List SStep :=
+      [.start 0, .base (.read 0), .start 1, .base (.read 1), .base (.read 2), .base (.cas 0), .base (.cas 1),
+       .base (.foreign "1".toList), .base (.read 4), .base (.cas 4), .start 2, .base (.read 2), .base (.fail 5),
+       .base (.cas 2), .start 2]
+    let s := srun codeStart codeProto home sched (sinit ⟨none, 0⟩)
+    SForeignMonotone codeStart codeProto home sched (sinit ⟨none, 0⟩) = true ∧
+    s.base.log.map (·.num) = [1, 2, 3] ∧
+    s.base.callers 1 = .done 1 .cas 3 6 (some 0) ∧
+    s.own = [(0, 1), (1, 2), (2, 3)] ∧ (s.inst 2).isUp = true := by decide
 
 /-! ## every ingredient is needed -/
 
